@@ -16,7 +16,7 @@ class StaleWorld(World):
 
     def st_op(self, st):
         hid = st["hid"]
-        if hid < len(self.handles):
+        if hid < len(self.handles) and self.handles[hid] is not None:
             h = self.handles[hid]
             ob = self.objs[h.oid]
             ch = self.changed_at.get(ob.rid)
